@@ -1,0 +1,25 @@
+//go:build verif
+
+package archive
+
+// Exports for the verification harness (/verif). Compiled only with -tags verif; adds no behaviour.
+
+// VerifCopyPoolProbe takes n buffers out of copyPool and reports whether the pool handed out the
+// same buffer more than once; every distinct buffer is put back exactly once.
+func VerifCopyPoolProbe(n int) (duplicate bool) {
+	seen := map[*[]byte]bool{}
+	var got []*[]byte
+	for i := 0; i < n; i++ {
+		b := copyPool.Get().(*[]byte)
+		if seen[b] {
+			duplicate = true
+			continue
+		}
+		seen[b] = true
+		got = append(got, b)
+	}
+	for _, b := range got {
+		copyPool.Put(b)
+	}
+	return duplicate
+}
